@@ -249,6 +249,30 @@ def rule_surv(ctx):
                     "is kept (and paid for) up to the root", stmt=C.unparse(bad))
     else:
         r.ok(key, cl.loc, "leaf legs keep per-index occurrence counts")
+    # (seed C04_12) the same for every other place where the tree merges leg tables of several tensors by hand:
+    # the getters combine them with legs_union (which adds the counts); a hand-written tally over the *keys*
+    # of leg tables adds 1 per tensor and loses the multiplicity of an index repeated on one tensor
+    for gname in ("get_legs", "get_involved"):
+        g = tc.lookup(gname)
+        if g is None:
+            continue
+        key = ctx.key(g, "C18-SURV", "merge-counts")
+        bad = None
+        for n in walk_local(g.node):
+            if isinstance(n, ast.Assign) and isinstance(n.targets[0], ast.Subscript) and isinstance(n.value, ast.BinOp) \
+                    and isinstance(n.value.op, ast.Add) and isinstance(n.value.right, ast.Constant) \
+                    and isinstance(n.value.left, ast.Call) and isinstance(n.value.left.func, ast.Attribute) \
+                    and n.value.left.func.attr == "get":
+                bad = n
+            if isinstance(n, ast.AugAssign) and isinstance(n.target, ast.Subscript) and isinstance(n.op, ast.Add) \
+                    and isinstance(n.value, ast.Constant):
+                bad = n
+        if bad is not None:
+            r.violation(key, C.loc(g, bad), f"`{C.unparse(bad, 60)}` tallies one per tensor while merging leg tables: an index "
+                        f"repeated on one tensor (a diagonal / trace index) is counted short of its number of appearances, "
+                        f"stays in the legs of the node and of all its ancestors and is paid for up to the root")
+        else:
+            r.ok(key, g.loc, "leg tables are merged with their counts (no constant tally)")
     # hypergraph: structural survival
     hg = ctx.p.cls(C.HYPERGRAPH, "HyperGraph")
     for name in ("contract", "compute_contracted_inds"):
